@@ -369,10 +369,10 @@ fn c16_run_inner(case: &CaseC16) -> CaseReport {
             cfg.cap_extra = case.delta as u32;
             cfg.off_pages = 0;
             let mode = Mode { trace: true, memhash: true, ..Mode::default() };
-            // truncate is left out of the lock-step comparison: what it does to bytes at or above allocated()
+            // truncate (and close + reopen, which only a file has) is left out of the lock-step comparison: what it does to bytes at or above allocated()
             // is backend specific (a file keeps them, a new heap block / anonymous map does not) and the
             // statement does not say otherwise; it is exercised by the single-backend run below
-            let lock_ops: Vec<Op> = case.ops.iter().filter(|o| !matches!(o, Op::Truncate { .. })).cloned().collect();
+            let lock_ops: Vec<Op> = case.ops.iter().filter(|o| !matches!(o, Op::Truncate { .. } | Op::Reopen { .. })).cloned().collect();
             let run = |b: Backend| {
                 let mut c = cfg.clone();
                 c.backend = b;
@@ -427,6 +427,10 @@ impl Prop for C16 {
         p.w_truncate = 4;
         p.w_clear = 1;
         p.w_rewind = 2;
+        // file-backed cases: close + reopen in every mode (single-backend run only), so that the accessor table and the
+        // data offset are also judged on arenas that were opened rather than created
+        p.w_reopen = 2;
+        p.reopen_modes = &[(3, 0), (1, 1), (2, 2), (1, 3)];
         let delta = prop_oneof![4 => -3i32..=3, 1 => -40i32..0, 3 => 4i32..3000];
         (cfg_strategy(&p), delta, 0u8..crate::types::ntypes() as u8, prop::collection::vec(op_strategy(&p), 0..=p.max_ops), prelude_strategy(), any::<bool>())
             .prop_map(|(cfg, delta, first_ty, ops, pre, use_pre)| {
@@ -446,7 +450,7 @@ impl Prop for C16 {
         scale(tier, 160_000, 3_000_000)
     }
     fn rule() -> &'static str {
-        "constructor cases: reserved 0..=4096, capacity = prefix + delta (delta -40..3000, dense at -3..=3), unify on/off, Vec/anon/file, both flavours: construction succeeds iff capacity >= Options::data_offset / data_offset_unify (the API's own functions are the reference) and fails with InsufficientSpace (Vec) / InvalidInput (maps); data_offset(), first allocation offset, reserved_slice length, remaining law and the descriptive accessor table match the constructor used. Then one generated history is run with unify=true on Vec, anon and file arenas: observation tuples and a hash of memory() equal after every step, final memory() equal. Reserved prefix pattern checked after every step. Non-trivial = reserved not a multiple of 8 or capacity within +-1 of the prefix"
+        "constructor cases: reserved 0..=4096, capacity = prefix + delta (delta -40..3000, dense at -3..=3), unify on/off, Vec/anon/file, both flavours: construction succeeds iff capacity >= Options::data_offset / data_offset_unify (the API's own functions are the reference) and fails with InsufficientSpace (Vec) / InvalidInput (maps); data_offset(), first allocation offset, reserved_slice length, remaining law and the descriptive accessor table match the constructor used (the accessor table, data_offset() and the remaining law are re-checked after every step of every history for every live arena value - clones and reopened files included). Then one generated history is run with unify=true on Vec, anon and file arenas: observation tuples and a hash of memory() equal after every step, final memory() equal. Reserved prefix pattern checked after every step. Non-trivial = reserved not a multiple of 8 or capacity within +-1 of the prefix"
     }
     fn simplify(c: &CaseC16) -> Vec<CaseC16> {
         simplify_case_a(&CaseA { cfg: c.cfg.clone(), ops: c.ops.clone() }).into_iter().map(|x| CaseC16 { cfg: c.cfg.clone(), delta: c.delta, first_ty: c.first_ty, ops: x.ops }).collect()
